@@ -452,12 +452,12 @@ Proof.
         eapply ext_trans; [exact E1|]. eapply ext_trans; [exact E2|]. eapply ext_trans; [exact E3|]. eapply ext_trans; eauto.
 Qed.
 
-Theorem ofor_rule (HS : StepSpecF) (vals0 : list (nat * slc)) s sg (Q : bst -> gst -> store -> Prop) :
+Theorem ofor_rule (HS : StepSpecF) (check : bool) (vals0 : list (nat * slc)) s sg (Q : bst -> gst -> store -> Prop) :
   Inv s sg -> rget (bregs b) stop = PLC sx -> sc s sx -> bvals b = lcs vals0 -> NoDup (map fst vals0) ->
   (* the invariant before the first iteration, under the condition [start <> stop] *)
   (forall cc s1 sg1, Inv s1 sg1 -> ext sg sg1 -> sc s1 cc -> ve sg1 (sval cc) = (if start =? ve sg (sval sx) then 0 else 1) -> J 0%nat (bregs b) vals0 cc sg1) ->
   (forall b4 s4 sg4 xs, Inv s4 sg4 -> ext sg sg4 -> Jend (bregs b4) xs sg4 -> bstack b4 = bstack b -> bvals b4 = lcs xs -> Q b4 s4 sg4) ->
-  wp (gen_top c (SOFor ix start stop maxv false body) b) s sg Q.
+  wp (gen_top c (SOFor ix start stop maxv check body) b) s sg Q.
 Proof.
   intros I Hst Ssx Hv Hd H0 HQ. cbn [gen_top]. rewrite Hst. apply wp_bind. apply wp_lift. apply ne_stop_wp; [exact I|].
   intros c0 s1 sg1 I1 E1 Sc0 Vc0. apply wp_bind. unfold ctx_enter. apply wp_bind.
@@ -472,14 +472,247 @@ Proof.
     split; [reflexivity|]. split; [exact Hv|]. split; [reflexivity|]. split; [reflexivity|]. split; [left; reflexivity|]. split; [exact T2|].
     split; [exact (MergeValues.sc_mono s1 s2 sg1 sg2 c0 C1 C2 E2 Sc0)|]. split; [exact (MergeValues.sc_mono s s2 sg sg2 sx C0 C2 E02 Ssx)|]. split; [exact Hd|].
     split; [exact (H0 c0 s1 sg1 I1 E1 Sc0 Vc0)|exact E2].
-  - intros bl cx vals o cc news s3 sg3 I3 E3 Hs Hvl Hb Hc Hn T Scc Hdl Hp Hend. cbn [bind ret]. rewrite Hs. apply wp_bind. rewrite Hvl.
-    apply (ctx_exit_shape cx o cc news s3 sg3); try assumption; [rewrite Hb; exact Hp|].
-    intros xs s4 sg4 I4 E4 Hm. cbn [ret wp fst].
-    apply (HQ _ s4 sg4 xs); [exact I4| | |reflexivity|reflexivity].
-    + eapply ext_trans; [exact E02|]. eapply ext_trans; eauto.
-    + rewrite Hb in Hm. exact (Hend xs s4 sg4 I4 E4 Hm).
+  - intros bl cx vals o cc news s3 sg3 I3 E3 Hs Hvl Hb Hc Hn T Scc Hdl Hp Hend.
+    assert (C3 : cnt s3 sg3) by exact (proj1 I3).
+    assert (Ssx3 : sc s3 sx) by exact (MergeValues.sc_mono s s3 sg sg3 sx C0 C3 (ext_trans _ _ _ E02 E3) Ssx).
+    (* the optional check (checkstopmax): one more condition, and-ed with the accumulated one, asserted zero; then _endfor *)
+    assert (Tail : forall s5 sg5, Inv s5 sg5 -> ext sg3 sg5 ->
+              wp (vn <- ctx_exit c cx (lcs news) ;; ret (with_stack (with_vals bl (fst vn)) (bstack b))) s5 sg5 Q).
+    { intros s5 sg5 I5 E5. assert (C5 : cnt s5 sg5) by exact (proj1 I5). apply wp_bind.
+      apply (ctx_exit_shape cx o cc news s5 sg5); try assumption.
+      - exact (tvalid_mono ins ig _ _ _ _ _ T C3 C5 E5).
+      - exact (MergeValues.sc_mono s3 s5 sg3 sg5 cc C3 C5 E5 Scc).
+      - rewrite Hb. eapply Forall_impl; [|exact Hp]. intros nt (St & f & Hf & Sf & Hid). split; [exact (MergeValues.sc_mono s3 s5 sg3 sg5 _ C3 C5 E5 St)|].
+        exists f. split; [exact Hf|]. split; [exact (MergeValues.sc_mono s3 s5 sg3 sg5 _ C3 C5 E5 Sf)|]. intros Es.
+        rewrite (ve_ext ins ig _ _ _ _ C3 E5 St), (ve_ext ins ig _ _ _ _ C3 E5 Sf). exact (Hid Es).
+      - intros xs s4 sg4 I4 E4 Hm. cbn [ret wp fst].
+        apply (HQ _ s4 sg4 xs); [exact I4| | |reflexivity|reflexivity].
+        + eapply ext_trans; [exact E02|]. eapply ext_trans; [exact E3|]. eapply ext_trans; eauto.
+        + rewrite Hb in Hm. apply (Hend xs s4 sg4 I4 (ext_trans _ _ _ E5 E4)).
+          rewrite Forall_forall in Hp. clear - Hm Hp C3 E5 Scc.
+          induction Hm as [|nt nx news xs (A & B & f & D & V) _ IHm]; constructor.
+          * destruct (Hp nt (or_introl eq_refl)) as (St & f' & Hf' & Sf' & _). rewrite D in Hf'. inversion Hf'; subst f'.
+            split; [exact A|]. split; [exact B|]. exists f. split; [exact D|]. rewrite V.
+            rewrite (ve_ext ins ig _ _ _ _ C3 E5 St), (ve_ext ins ig _ _ _ _ C3 E5 Sf'), (ve_ext ins ig _ _ _ _ C3 E5 Scc). reflexivity.
+          * apply IHm. intros x Hx. apply Hp. right. exact Hx. }
+    rewrite Hs, Hvl. destruct check.
+    + apply wp_bind. apply wp_bind. apply wp_lift. apply ne_stop_wp; [exact I3|]. intros cl s4 sg4 I4 E4 Scl Vcl.
+      apply wp_bind. apply wp_lift. rewrite Hc. apply and_bool_wp; [exact I4|]. intros a s5 sg5 I5 E5 Sa Va. apply wp_lift.
+      apply (OK_assert_zero ins ig a s5 sg5); [exact I5|]. intros _ s6 sg6 (I6 & E6 & _).
+      cbn beta. apply Tail; [exact I6|]. eapply ext_trans; [exact E4|]. eapply ext_trans; eauto.
+    + cbn [bind ret]. apply Tail; [exact I3|apply ext_refl].
 Qed.
 End For.
+
+(* ---- if / elif* / else chains ---- *)
+Section Chain.
+Variables (es : list (list stmt * nat * list stmt)) (elseb : option (list stmt)) (b : bst).
+(* at the head of the chain, before branch j is examined: registers, the values the previous branch left (not yet merged), the backup it is
+   merged against, the previous branch's effective condition cj and the running "no branch taken yet" condition icj *)
+Variable JC : nat -> regs (p:=p) -> list (nat * slc) -> list (nat * slc) -> slc -> slc -> store -> Prop.
+(* after the condition of branch j was evaluated (outside the previous branch's guard) *)
+Variable JM : nat -> regs (p:=p) -> list (nat * slc) -> slc -> slc -> store -> Prop.
+(* after the else body (or after the chain when there is no else): what _endif merges *)
+Variable JE : regs (p:=p) -> list (nat * slc) -> list (nat * slc) -> slc -> store -> Prop.
+Let blk := (fix go (l : list stmt) (b0 : bst) : G1 bst :=
+              match l with [] => ret b0 | s1 :: l' => b1 <- gen_top c s1 b0 ;; go l' b1 end).
+Let chain := (fix chain (es : list (list stmt * nat * list stmt)) (b0 : bst) : G1 bst :=
+               match es with
+               | [] => ret b0
+               | (condb, cr, body) :: es' =>
+                   match bstack b0 with
+                   | cx0 :: rest =>
+                       vn <- ctx_exit c cx0 (bvals b0) ;;
+                       bc <- blk condb (with_stack (with_vals b0 (fst vn)) rest) ;;
+                       let nw := rget (bregs bc) cr in
+                       match bicond cx0 with
+                       | Some ic0 =>
+                           nn <- bnot_v c nw ;; nwic <- lift (Api.pyop (p:=p) c OAnd ic0 nn) ;;
+                           en <- lift (Api.pyop (p:=p) c OAnd ic0 nw) ;;
+                           cx1 <- ctx_enter c KIf (bvals bc) en (Some (snd vn)) (Some nwic) ;;
+                           bb <- blk body (with_stack bc (cx1 :: bstack bc)) ;;
+                           chain es' bb
+                       | None => static_raise TypeError
+                       end
+                   | [] => static_raise IndexError
+                   end
+               end).
+Definition HeadC (j : nat) (b0 : bst) (s : gst) (sg : store) : Prop :=
+  exists cx0 news baks o cj oi icj sgJ, bstack b0 = cx0 :: bstack b /\ bvals b0 = lcs news /\ bbak cx0 = lcs baks /\ bcond cx0 = PBool o cj /\
+    bicond cx0 = Some (PBool oi icj) /\ (bnodef cx0 = None \/ bnodef cx0 = Some []) /\ tvalid ins ig (borig cx0) s sg /\ sc s cj /\ sc s icj /\
+    NoDup (map fst news) /\ Forall (pre (lcs baks) s sg) news /\ JC j (bregs b0) news baks cj icj sgJ /\ ext sgJ sg.
+Definition CondSpec : Prop :=
+  forall j condb cr body, nth_error es j = Some (condb, cr, body) ->
+  forall b0 news baks cj icj sgJ xs sgm s1 sg1, JC j (bregs b0) news baks cj icj sgJ -> ext sgJ sgm -> ext sgm sg1 -> Inv s1 sg1 ->
+    Forall2 (merged (lcs baks) cj sgm s1 sg1) news xs ->
+    wp (gen_stmts c condb (with_stack (with_vals b0 (lcs xs)) (bstack b))) s1 sg1
+       (fun bc s2 sg2 => Inv s2 sg2 /\ ext sg1 sg2 /\ bstack bc = bstack b /\ bvals bc = lcs xs /\
+          exists o' nw, rget (bregs bc) cr = PBool o' nw /\ sc s2 nw /\ JM j (bregs bc) xs icj nw sg2).
+Definition BodySpec : Prop :=
+  forall j condb cr body, nth_error es j = Some (condb, cr, body) ->
+  forall bc xs icj nw sgM en nwic orig s3 sg3, JM j (bregs bc) xs icj nw sgM -> ext sgM sg3 -> Inv s3 sg3 -> tvalid ins ig orig s3 sg3 ->
+    bstack bc = bstack b -> bvals bc = lcs xs -> sc s3 en -> sc s3 nwic ->
+    ve sg3 (sval en) = ve sgM (sval icj) * ve sgM (sval nw) -> ve sg3 (sval nwic) = ve sgM (sval icj) * (1 - ve sgM (sval nw)) ->
+    let cx1 := {| bk := KIf; bcond := PBool 0 en; bbak := lcs xs; borig := orig; bnodef := Some []; bicond := Some (PBool 0 nwic) |} in
+    wp (gen_stmts c body (with_stack bc (cx1 :: bstack b))) s3 sg3
+       (fun bb s4 sg4 => Inv s4 sg4 /\ ext sg3 sg4 /\ bstack bb = cx1 :: bstack b /\
+          exists news', bvals bb = lcs news' /\ NoDup (map fst news') /\ Forall (pre (lcs xs) s4 sg4) news' /\ JC (S j) (bregs bb) news' xs en nwic sg4).
+
+Lemma chain_wp (HC : CondSpec) (HB : BodySpec) : forall rest_es j b0 s sg (Q : bst -> gst -> store -> Prop), (j <= length es)%nat -> skipn j es = rest_es -> Inv s sg -> HeadC j b0 s sg ->
+  (forall bl s' sg', Inv s' sg' -> ext sg sg' -> HeadC (length es) bl s' sg' -> Q bl s' sg') ->
+  wp (chain rest_es b0) s sg Q.
+Proof.
+  induction rest_es as [|[[condb cr] body] rest_es IH]; intros j b0 s sg Q Hle Hsk I H HQ.
+  - cbn [chain ret wp]. assert (Ej : (length es <= j)%nat).
+    { destruct (Nat.le_gt_cases (length es) j) as [L|L]; [exact L|]. exfalso. assert (K : length (skipn j es) = (length es - j)%nat) by apply skipn_length. rewrite Hsk in K. cbn in K. lia. }
+    assert (Hj : j = length es) by lia. subst j. apply HQ; [exact I|apply ext_refl|exact H].
+  - destruct H as (cx0 & news & baks & o & cj & oi & icj & sgJ & Hs & Hv & Hb & Hc & Hic & Hn & T & Scj & Sic & Hd & Hp & HJ & EJ).
+    assert (Hnth : nth_error es j = Some (condb, cr, body)).
+    { clear - Hsk. revert j Hsk. induction es as [|e0 es0 IHe]; intros j Hsk; destruct j; cbn in *; try discriminate; [inversion Hsk; reflexivity|apply IHe; exact Hsk]. }
+    assert (Hsk' : skipn (S j) es = rest_es).
+    { clear - Hsk. revert j Hsk. induction es as [|e0 es0 IHe]; intros j Hsk; destruct j; cbn in *; try discriminate; [inversion Hsk; reflexivity|apply IHe; exact Hsk]. }
+    change (chain ((condb, cr, body) :: rest_es) b0) with
+      (match bstack b0 with
+       | cx0 :: rest =>
+           vn <- ctx_exit c cx0 (bvals b0) ;;
+           bc <- blk condb (with_stack (with_vals b0 (fst vn)) rest) ;;
+           match bicond cx0 with
+           | Some ic0 =>
+               nn <- bnot_v c (rget (bregs bc) cr) ;; nwic <- lift (Api.pyop (p:=p) c OAnd ic0 nn) ;;
+               en <- lift (Api.pyop (p:=p) c OAnd ic0 (rget (bregs bc) cr)) ;;
+               cx1 <- ctx_enter c KIf (bvals bc) en (Some (snd vn)) (Some nwic) ;;
+               bb <- blk body (with_stack bc (cx1 :: bstack bc)) ;;
+               chain rest_es bb
+           | None => static_raise TypeError
+           end
+       | [] => static_raise IndexError
+       end).
+    rewrite Hs. apply wp_bind. rewrite Hv.
+    apply (ctx_exit_shape cx0 o cj news s sg); try assumption; [rewrite Hb; exact Hp|].
+    intros xs s1 sg1 I1 E1 Hm. cbn [fst snd]. apply wp_bind. apply wp_blk. rewrite Hb in Hm.
+    assert (EJ1 : ext sgJ sg) by exact EJ.
+    eapply wp_mono; [|exact (HC j condb cr body Hnth b0 news baks cj icj sgJ xs sg s1 sg1 HJ EJ E1 I1 Hm)].
+    intros bc s2 sg2 (I2 & E2 & Hsb & Hvb & o' & nw & Hcr & Snw & HM). cbn beta. rewrite Hic, Hcr.
+    assert (C0 : cnt s sg) by exact (proj1 I). assert (C2 : cnt s2 sg2) by exact (proj1 I2). assert (E02 : ext sg sg2) by (eapply ext_trans; eauto).
+    assert (Sic2 : sc s2 icj) by exact (MergeValues.sc_mono s s2 sg sg2 icj C0 C2 E02 Sic).
+    apply wp_bind. apply bnot_v_bool_wp. apply wp_bind. apply wp_lift.
+    apply and_bool_wp; [exact I2|]. intros nwic s3 sg3 I3 E3 Snwic Vnwic.
+    apply wp_bind. apply wp_lift. assert (C3 : cnt s3 sg3) by exact (proj1 I3).
+    apply and_bool_wp; [exact I3|]. intros en s4 sg4 I4 E4 Sen Ven.
+    apply wp_bind. unfold ctx_enter. apply wp_bind.
+    apply (add_guard_v_TOK ins ig c (PBool 0 en) s4 sg4 I4). intros orig s5 sg5 I5 E5 T5. cbn [ret wp]. rewrite Hvb, deepcopy_lcs, Hsb.
+    apply wp_bind. apply wp_blk.
+    assert (C4 : cnt s4 sg4) by exact (proj1 I4). assert (C5 : cnt s5 sg5) by exact (proj1 I5).
+    assert (E25 : ext sg2 sg5) by (eapply ext_trans; [exact E3|eapply ext_trans; eauto]).
+    assert (Ven5 : ve sg5 (sval en) = ve sg2 (sval icj) * ve sg2 (sval nw)).
+    { rewrite (ve_ext ins ig _ _ _ _ C4 E5 Sen), Ven. rewrite (ve_ext ins ig _ _ _ _ C2 E3 Sic2), (ve_ext ins ig _ _ _ _ C2 E3 Snw). reflexivity. }
+    assert (Vnw5 : ve sg5 (sval nwic) = ve sg2 (sval icj) * (1 - ve sg2 (sval nw))).
+    { assert (E35 : ext sg3 sg5) by (eapply ext_trans; eauto). rewrite (ve_ext ins ig _ _ _ _ C3 E35 Snwic), Vnwic, bnot_val. reflexivity. }
+    assert (Sen5 : sc s5 en) by exact (MergeValues.sc_mono s4 s5 sg4 sg5 en C4 C5 E5 Sen).
+    assert (Snw5 : sc s5 nwic) by (assert (E35 : ext sg3 sg5) by (eapply ext_trans; eauto); exact (MergeValues.sc_mono s3 s5 sg3 sg5 nwic C3 C5 E35 Snwic)).
+    eapply wp_mono; [|exact (HB j condb cr body Hnth bc xs icj nw sg2 en nwic orig s5 sg5 HM E25 I5 T5 Hsb Hvb Sen5 Snw5 Ven5 Vnw5)]. cbv zeta.
+    intros bb s6 sg6 (I6 & E6 & Hsbb & news' & Hvbb & Hd' & Hp' & HJ').
+    assert (HleS : (S j <= length es)%nat) by (apply nth_error_Some; rewrite Hnth; discriminate).
+    apply (IH (S j)); [exact HleS|exact Hsk'|exact I6| |].
+    + exists {| bk := KIf; bcond := PBool 0 en; bbak := lcs xs; borig := orig; bnodef := Some []; bicond := Some (PBool 0 nwic) |}, news', xs, 0, en, 0, nwic, sg6.
+      cbn [bbak bcond bicond bnodef borig]. assert (C6 : cnt s6 sg6) by exact (proj1 I6).
+      split; [exact Hsbb|]. split; [exact Hvbb|]. split; [reflexivity|]. split; [reflexivity|]. split; [reflexivity|]. split; [right; reflexivity|].
+      split; [exact (tvalid_mono ins ig _ _ _ _ _ T5 C5 C6 E6)|]. split; [exact (MergeValues.sc_mono s5 s6 sg5 sg6 en C5 C6 E6 Sen5)|].
+      split; [exact (MergeValues.sc_mono s5 s6 sg5 sg6 nwic C5 C6 E6 Snw5)|]. split; [exact Hd'|]. split; [exact Hp'|]. split; [exact HJ'|apply ext_refl].
+    + intros bl s' sg' I' E' H'. apply HQ; [exact I'| |exact H'].
+      eapply ext_trans; [exact E1|]. eapply ext_trans; [exact E2|]. eapply ext_trans; [exact E25|]. eapply ext_trans; eauto.
+Qed.
+
+(* if _if(c): thenb ; [if _elif(...): body]* ; _endif()  -- no else: the last branch is merged under its own condition *)
+Theorem oifchain_rule (HC : CondSpec) (HB : BodySpec) (cn : nat) (thenb : list stmt) o cb (olds : list (nat * slc)) s sg (Q : bst -> gst -> store -> Prop) :
+  Inv s sg -> rget (bregs b) cn = PBool o cb -> sc s cb -> bvals b = lcs olds ->
+  (forall orig s1 sg1, Inv s1 sg1 -> ext sg sg1 -> tvalid ins ig orig s1 sg1 ->
+     let cx := {| bk := KIf; bcond := PBool o cb; bbak := lcs olds; borig := orig; bnodef := None; bicond := Some (PBool 0 (bnot cb)) |} in
+     wp (gen_stmts c thenb (with_stack b (cx :: bstack b))) s1 sg1
+        (fun b2 s2 sg2 => Inv s2 sg2 /\ ext sg1 sg2 /\ bstack b2 = cx :: bstack b /\
+           exists news, bvals b2 = lcs news /\ NoDup (map fst news) /\ Forall (pre (lcs olds) s2 sg2) news /\ JC 0%nat (bregs b2) news olds cb (bnot cb) sg2)) ->
+  (forall b4 s4 sg4 news baks cj icj sgJ xs sgm, Inv s4 sg4 -> ext sg sg4 -> ext sgJ sgm -> ext sgm sg4 -> JC (length es) (bregs b4) news baks cj icj sgJ -> bstack b4 = bstack b -> bvals b4 = lcs xs ->
+     Forall2 (merged (lcs baks) cj sgm s4 sg4) news xs -> Q b4 s4 sg4) ->
+  wp (gen_top c (SOIf cn thenb es None) b) s sg Q.
+Proof.
+  intros I Hc Scb Hv HT HQ. cbn [gen_top]. rewrite Hc. apply wp_bind. apply bnot_v_bool_wp.
+  apply wp_bind. unfold ctx_enter at 1. apply wp_bind.
+  apply (add_guard_v_TOK ins ig c (PBool o cb) s sg I). intros orig s2 sg2 I2 E2 T2. cbn [ret wp].
+  rewrite Hv, deepcopy_lcs. apply wp_bind. apply wp_blk.
+  eapply wp_mono; [|exact (HT orig s2 sg2 I2 E2 T2)]. cbv zeta.
+  intros b2 s3 sg3 (I3 & E3 & Hs & news & Hn & Hd & Hp & HJ0).
+  assert (C0 : cnt s sg) by exact (proj1 I). assert (C2 : cnt s2 sg2) by exact (proj1 I2). assert (C3 : cnt s3 sg3) by exact (proj1 I3).
+  assert (E03 : ext sg sg3) by (eapply ext_trans; eauto).
+  apply wp_bind. apply (chain_wp HC HB es 0%nat); [lia|reflexivity|exact I3| |].
+  - exists {| bk := KIf; bcond := PBool o cb; bbak := lcs olds; borig := orig; bnodef := None; bicond := Some (PBool 0 (bnot cb)) |}, news, olds, o, cb, 0, (bnot cb), sg3.
+    cbn [bbak bcond bicond bnodef borig].
+    split; [exact Hs|]. split; [exact Hn|]. split; [reflexivity|]. split; [reflexivity|]. split; [reflexivity|]. split; [left; reflexivity|].
+    split; [exact (tvalid_mono ins ig _ _ _ _ _ T2 C2 C3 E3)|]. split; [exact (MergeValues.sc_mono s s3 sg sg3 cb C0 C3 E03 Scb)|].
+    split; [apply bnot_sc; exact (MergeValues.sc_mono s s3 sg sg3 cb C0 C3 E03 Scb)|]. split; [exact Hd|]. split; [exact Hp|]. split; [exact HJ0|apply ext_refl].
+  - intros bl s4 sg4 I4 E4 (cx0 & nws & baks & o1 & cj & oi & icj & sgJ & Hs4 & Hv4 & Hb4 & Hc4 & Hic4 & Hn4 & T4 & Scj & Sic & Hd4 & Hp4 & HJ & EJ).
+    cbn [bind ret]. rewrite Hs4. apply wp_bind. rewrite Hv4.
+    apply (ctx_exit_shape cx0 o1 cj nws s4 sg4); try assumption; [rewrite Hb4; exact Hp4|].
+    intros xs s5 sg5 I5 E5 Hm. cbn [ret wp fst snd fold_left bstack with_stack with_vals].
+    rewrite Hb4 in Hm.
+    apply (HQ _ s5 sg5 nws baks cj icj sgJ xs sg4); [exact I5| |exact EJ|exact E5|exact HJ|reflexivity|reflexivity|exact Hm].
+    eapply ext_trans; [exact E2|]. eapply ext_trans; [exact E3|]. eapply ext_trans; eauto.
+Qed.
+(* ... with a final  if _else(): body : the else body runs under the running "no branch taken" condition; _endif merges it *)
+Definition ElseSpec (body : list stmt) : Prop :=
+  forall b2 news baks cj oi icj sgJ xs sgm orig s3 sg3, JC (length es) (bregs b2) news baks cj icj sgJ -> ext sgJ sgm -> ext sgm sg3 -> Inv s3 sg3 ->
+    tvalid ins ig orig s3 sg3 -> Forall2 (merged (lcs baks) cj sgm s3 sg3) news xs ->
+    let cx1 := {| bk := KIf; bcond := PBool oi icj; bbak := lcs xs; borig := orig; bnodef := Some []; bicond := None |} in
+    wp (gen_stmts c body (with_stack (with_vals b2 (lcs xs)) (cx1 :: bstack b))) s3 sg3
+       (fun b3 s4 sg4 => Inv s4 sg4 /\ ext sg3 sg4 /\ bstack b3 = cx1 :: bstack b /\
+          exists news_e, bvals b3 = lcs news_e /\ NoDup (map fst news_e) /\ Forall (pre (lcs xs) s4 sg4) news_e /\ JE (bregs b3) news_e xs icj sg4).
+Theorem oifchain_else_rule (HC : CondSpec) (HB : BodySpec) (body : list stmt) (HE : ElseSpec body) (cn : nat) (thenb : list stmt) o cb (olds : list (nat * slc)) s sg
+        (Q : bst -> gst -> store -> Prop) :
+  Inv s sg -> rget (bregs b) cn = PBool o cb -> sc s cb -> bvals b = lcs olds ->
+  (forall orig s1 sg1, Inv s1 sg1 -> ext sg sg1 -> tvalid ins ig orig s1 sg1 ->
+     let cx := {| bk := KIf; bcond := PBool o cb; bbak := lcs olds; borig := orig; bnodef := None; bicond := Some (PBool 0 (bnot cb)) |} in
+     wp (gen_stmts c thenb (with_stack b (cx :: bstack b))) s1 sg1
+        (fun b2 s2 sg2 => Inv s2 sg2 /\ ext sg1 sg2 /\ bstack b2 = cx :: bstack b /\
+           exists news, bvals b2 = lcs news /\ NoDup (map fst news) /\ Forall (pre (lcs olds) s2 sg2) news /\ JC 0%nat (bregs b2) news olds cb (bnot cb) sg2)) ->
+  (forall b5 s5 sg5 news_e xs icj sgE fin, Inv s5 sg5 -> ext sg sg5 -> ext sgE sg5 -> JE (bregs b5) news_e xs icj sgE -> bstack b5 = bstack b -> bvals b5 = lcs fin ->
+     Forall2 (merged (lcs xs) icj sgE s5 sg5) news_e fin -> Q b5 s5 sg5) ->
+  wp (gen_top c (SOIf cn thenb es (Some body)) b) s sg Q.
+Proof.
+  intros I Hc Scb Hv HT HQ. cbn [gen_top]. rewrite Hc. apply wp_bind. apply bnot_v_bool_wp.
+  apply wp_bind. unfold ctx_enter at 1. apply wp_bind.
+  apply (add_guard_v_TOK ins ig c (PBool o cb) s sg I). intros orig s2 sg2 I2 E2 T2. cbn [ret wp].
+  rewrite Hv, deepcopy_lcs. apply wp_bind. apply wp_blk.
+  eapply wp_mono; [|exact (HT orig s2 sg2 I2 E2 T2)]. cbv zeta.
+  intros b2 s3 sg3 (I3 & E3 & Hs & news & Hn & Hd & Hp & HJ0).
+  assert (C0 : cnt s sg) by exact (proj1 I). assert (C2 : cnt s2 sg2) by exact (proj1 I2). assert (C3 : cnt s3 sg3) by exact (proj1 I3).
+  assert (E03 : ext sg sg3) by (eapply ext_trans; eauto).
+  apply wp_bind. apply (chain_wp HC HB es 0%nat); [lia|reflexivity|exact I3| |].
+  - exists {| bk := KIf; bcond := PBool o cb; bbak := lcs olds; borig := orig; bnodef := None; bicond := Some (PBool 0 (bnot cb)) |}, news, olds, o, cb, 0, (bnot cb), sg3.
+    cbn [bbak bcond bicond bnodef borig].
+    split; [exact Hs|]. split; [exact Hn|]. split; [reflexivity|]. split; [reflexivity|]. split; [reflexivity|]. split; [left; reflexivity|].
+    split; [exact (tvalid_mono ins ig _ _ _ _ _ T2 C2 C3 E3)|]. split; [exact (MergeValues.sc_mono s s3 sg sg3 cb C0 C3 E03 Scb)|].
+    split; [apply bnot_sc; exact (MergeValues.sc_mono s s3 sg sg3 cb C0 C3 E03 Scb)|]. split; [exact Hd|]. split; [exact Hp|]. split; [exact HJ0|apply ext_refl].
+  - intros bl s4 sg4 I4 E4 (cx0 & nws & baks & o1 & cj & oi & icj & sgJ & Hs4 & Hv4 & Hb4 & Hc4 & Hic4 & Hn4 & T4 & Scj & Sic & Hd4 & Hp4 & HJ & EJ).
+    apply wp_bind. rewrite Hs4. apply wp_bind. rewrite Hv4.
+    apply (ctx_exit_shape cx0 o1 cj nws s4 sg4); try assumption; [rewrite Hb4; exact Hp4|].
+    intros xs s5 sg5 I5 E5 Hm. cbn [ret wp fst snd]. rewrite Hic4. apply wp_bind. unfold ctx_enter. apply wp_bind.
+    apply (add_guard_v_TOK ins ig c (PBool oi icj) s5 sg5 I5). intros orig2 s6 sg6 I6 E6 T6. cbn [ret wp]. rewrite deepcopy_lcs.
+    apply wp_blk. rewrite Hb4 in Hm.
+    assert (C4 : cnt s4 sg4) by exact (proj1 I4). assert (C5 : cnt s5 sg5) by exact (proj1 I5). assert (C6 : cnt s6 sg6) by exact (proj1 I6).
+    assert (Hm6 : Forall2 (merged (lcs baks) cj sg4 s6 sg6) nws xs).
+    { clear - Hm C5 C6 E6. induction Hm as [|nt nx nws xs (A & B & f & D & V) _ IHm]; constructor; [|exact IHm].
+      split; [exact A|]. split; [exact (MergeValues.sc_mono s5 s6 sg5 sg6 _ C5 C6 E6 B)|]. exists f. split; [exact D|]. rewrite (ve_ext ins ig _ _ _ _ C5 E6 B). exact V. }
+    assert (E46 : ext sg4 sg6) by (eapply ext_trans; eauto).
+    eapply wp_mono; [|exact (HE bl nws baks cj oi icj sgJ xs sg4 orig2 s6 sg6 HJ EJ E46 I6 T6 Hm6)]. cbv zeta.
+    intros b3 s7 sg7 (I7 & E7 & Hs7 & news_e & Hv7 & Hd7 & Hp7 & HJE). rewrite Hs7. apply wp_bind. rewrite Hv7.
+    assert (C7 : cnt s7 sg7) by exact (proj1 I7).
+    assert (E47 : ext sg4 sg7) by (eapply ext_trans; eauto).
+    apply (ctx_exit_shape {| bk := KIf; bcond := PBool oi icj; bbak := lcs xs; borig := orig2; bnodef := Some []; bicond := None |} oi icj news_e s7 sg7);
+      try reflexivity; try assumption; [exact (tvalid_mono ins ig _ _ _ _ _ T6 C6 C7 E7)|right; reflexivity|exact (MergeValues.sc_mono s4 s7 sg4 sg7 icj C4 C7 E47 Sic)|].
+    intros fin s8 sg8 I8 E8 Hmf. cbn [ret wp snd fst bicond fold_left bstack with_stack with_vals bbak] in *.
+    apply (HQ _ s8 sg8 news_e xs icj sg7 fin); [exact I8| |exact E8|exact HJE|reflexivity|reflexivity|exact Hmf].
+    eapply ext_trans; [exact E03|]. eapply ext_trans; [exact E4|]. eapply ext_trans; [exact E47|exact E8].
+Qed.
+End Chain.
 
 (* ---- if / else ---- *)
 
